@@ -26,9 +26,14 @@ where
         x_curr = xr_old
             - (polynomial.eval_univariate(x_curr)? / polynomial_dx.eval_univariate(x_curr)?);
         iter += 1;
-        if x_curr != 0 as f64 {
-            approx_err = ((x_curr - xr_old).abs() / x_curr) * 100.0;
-        }
+        approx_err = if x_curr != 0 as f64 {
+            ((x_curr - xr_old).abs() / x_curr) * 100.0
+        } else if x_curr == xr_old {
+            // Sitting exactly on zero: converged once the step vanishes
+            0.0
+        } else {
+            100.0
+        };
         if approx_err.abs() < error_tol || iter >= itermax {
             break;
         }
